@@ -218,7 +218,9 @@ def pval_exact(pv):
 
 
 RAWS = [3, 0, -7, 0.1, 1e-7, 2.5e3, 5e-324, Decimal("1.50"), Decimal("123456789012345678901234567890.123"), "11", "1e-9", "0.30",
-        "w/5", "vdd*2", "x y", "1*2", 3 * Prefix.NANO, Prefixed(number=Decimal("4.10"), prefix=Prefix.DECA), h.Literal("lit"), 10**30]
+        "w/5", "vdd*2", "x y", "1*2", 3 * Prefix.NANO, Prefixed(number=Decimal("4.10"), prefix=Prefix.DECA), h.Literal("lit"), 10**30,
+        # explicit literals stay literals, whatever their text looks like
+        h.Literal("1e-6"), h.Literal("11"), h.Literal(" 2.50 "), h.Literal("1_000")]
 
 
 def instances_check(ctx):
@@ -281,7 +283,7 @@ def instances_check(ctx):
         m = h.Module(name="T")
         m.a = h.Signal()
         m.x = E1(dvals)(a=m.a)
-        pv = dict(a=rng.choice(RAWS[:14]), s=rng.choice(["", "q r", "ü"]), n=rng.randint(-5, 5), f=rng.choice([0.1, 1e-7, 3.0]), c=rng.choice(list(Color)))
+        pv = dict(a=rng.choice(RAWS), s=rng.choice(["", "q r", "ü"]), n=rng.randint(-5, 5), f=rng.choice([0.1, 1e-7, 3.0]), c=rng.choice(list(Color)))
         m.y = E2(**pv)(a=m.a)
         case = {"stream": "instances", "ext": {k: repr(v) for k, v in {**dvals, **pv}.items()}}
         rep.count("instances", json.dumps(case))
@@ -316,6 +318,52 @@ def instances_check(ctx):
         wanty = {"a": scalar_expect(pv["a"]), "s": ("literal", pv["s"]), "n": ("int", pv["n"]), "f": ("float", float(pv["f"]).hex()), "c": ("literal", pv["c"].value)}
         if goty != wanty:
             rep.fail("pred", case, {"why": "paramclass parameters differ", "got": str(goty), "want": str(wanty)})
+    # the Mos primitive and its Nmos / Pmos wrappers, by keywords and by parameter object
+    import dataclasses
+    for trial in range(24 if ctx.quick else 400):
+        kw = {}
+        for f in ("w", "l", "nf", "mult"):
+            if rng.random() < 0.5:
+                kw[f] = rng.choice([1, 3 * Prefix.MICRO, "2.5", h.Literal("wn/4"), h.Literal("11")])
+        if rng.random() < 0.6:
+            kw["model"] = rng.choice(["nfet_01v8", "my model", "m"])
+        if rng.random() < 0.5:
+            kw["vth"] = rng.choice(list(P.MosVth))
+        if rng.random() < 0.5:
+            kw["family"] = rng.choice(list(P.MosFamily))
+        how = rng.choice(["Mos", "Nmos", "Pmos", "Nmos_obj", "Pmos_obj"])
+        try:
+            if how == "Mos":
+                tp = rng.choice(list(P.MosType))
+                call, want_tp = h.Mos(tp=tp, **kw), tp
+            elif how in ("Nmos", "Pmos"):
+                call, want_tp = getattr(h, how)(**kw), (P.MosType.NMOS if how == "Nmos" else P.MosType.PMOS)
+            else:
+                call, want_tp = getattr(h, how[:4])(P.MosParams(**kw)), (P.MosType.NMOS if how.startswith("N") else P.MosType.PMOS)
+        except Exception as ex:  # noqa
+            rep.fail("corr", {"stream": "mos", "how": how, "kw": {k: repr(v) for k, v in kw.items()}}, f"construction raised {type(ex).__name__}: {ex}")
+            continue
+        m = h.Module(name="T")
+        for pn in ("d", "g", "s", "b"):
+            m.add(h.Signal(name=pn))
+        m.x = call(d=m.d, g=m.g, s=m.s, b=m.b)
+        case = {"stream": "mos", "how": how, "kw": {k: repr(v) for k, v in kw.items()}}
+        rep.count("instances", json.dumps(case))
+        n += 1
+        try:
+            pkg = h.to_proto(m)
+        except Exception as ex:  # noqa
+            rep.fail("pred", case, f"export raised {type(ex).__name__}: {ex}")
+            continue
+        got = {p.name: pval_exact(p.value) for p in pkg.modules[0].instances[0].parameters}
+        want = {"tp": ("literal", want_tp.value), "vth": ("literal", kw.get("vth", P.MosVth.STD).value), "family": ("literal", kw.get("family", P.MosFamily.NONE).value)}
+        for f in ("w", "l", "nf", "mult"):
+            if f in kw:
+                want[f] = scalar_expect(kw[f])
+        if "model" in kw:
+            want["model"] = ("literal", kw["model"])
+        if got != want:
+            rep.fail("pred", case, {"why": "Mos parameters differ", "got": {k: str(v) for k, v in got.items()}, "want": {k: str(v) for k, v in want.items()}})
     rep.extra["instances_checked"] = n
 
 
